@@ -52,7 +52,11 @@ def plan_dp(tier, seed, props):
     # the second document spells its zeros -0 (the same number: nothing changes for the specification)
     items += [item("kinds", NONE, 0.03 if q else 0.3, mode="negzero")]
     if listonly:
+        if not q:
+            items += [item("huge", NONE, 1.0, False)]
         return items
+    if "C07" in props or not q:
+        items += [item("huge", NONE, 1.0, False)]       # 2100-element arrays: thresholds in the thousands
     items += [item("kinds", o, 0.015 if q else 0.15, mode="negzero") for o in (SET, MSET, MERGE)]
     others = [SET, MSET, MERGE, SETMERGE, MSETMERGE]
     for o in others:
